@@ -1035,6 +1035,11 @@ func genC14s(rng *rand.Rand, tier string, w *bufio.Writer) {
 			defer mu.Unlock()
 			k, ok := queues[args[0]]
 			if !ok {
+				if name != "lock.enq" {
+					// a queue object nobody was appended to in THIS round: the event belongs to a watchdog of an
+					// earlier round's lock instance that fires late (busy machine) — not to this round's log
+					return
+				}
 				k = len(queues)
 				queues[args[0]] = k
 			}
@@ -1115,7 +1120,19 @@ func genC14s(rng *rand.Rand, tier string, w *bufio.Writer) {
 		case <-time.After(HxScale(60 * time.Second)): // (the generator is not re-run: the window itself is generous)
 			hung = true
 		}
-		time.Sleep(HxScale(5 * time.Millisecond)) // outstanding short-TTL watchdogs
+		// outstanding short-TTL watchdogs (they may fire late on a busy machine): the round ends when both queues are empty
+		for dl := time.Now().Add(HxScale(5 * time.Second)); !hung && time.Now().Before(dl); {
+			left := 0
+			for _, k := range []string{"a", "b"} {
+				l, _, _ := lock.VerifSnapshot(lk, k)
+				left += len(l)
+			}
+			if left == 0 {
+				break
+			}
+			time.Sleep(time.Millisecond)
+		}
+		time.Sleep(HxScale(2 * time.Millisecond))
 		verifhook.SetHandler(nil)
 		fmt.Fprintf(w, "case %d\n", r)
 		mu.Lock()
